@@ -1488,3 +1488,126 @@ func c10GasMultipliers(c *Ctx, cone []*ssa.Function) {
 	c.Floor(rule, n, 20, "UseGas call sites on the cone")
 	c.Extra["gas_multiplier_conversions"] = nconv
 }
+
+// c02Round4 (written after seeds C02r4/10..12 were missed).
+func c02Round4(c *Ctx) {
+	const pk = "storage/mkvs"
+	// (a) seed 10: in doRemove the decision to collapse a node into its single remaining child is taken on dereferences
+	// made AFTER the recursive removal — a child looked at before the recursion may be the very leaf that was removed,
+	// and a stale non-nil answer keeps a single-child internal node (same contents, different root hash).
+	if fn := c.needFn("C02.mutate", pk+".(*tree).doRemove"); fn != nil {
+		c.Analysed[fname(fn)] = true
+		var rec, derefs []ssa.CallInstruction
+		for _, call := range callsIn(fn) {
+			switch calleeName(call) {
+			case pk + ".(*tree).doRemove":
+				rec = append(rec, call)
+			case pk + ".(*cache).derefNodePtr":
+				derefs = append(derefs, call)
+			}
+		}
+		ok, n := true, 0
+		site := c.P.Pos(fn.Pos())
+		for _, r := range rec {
+			for _, b := range fn.Blocks {
+				iff := lastIfOf(b)
+				if iff == nil || Reach(fn, r, nil, isInstr(iff), nil) == nil {
+					continue
+				}
+				bo, isBO := iff.Cond.(*ssa.BinOp)
+				if !isBO {
+					continue
+				}
+				for _, opnd := range []ssa.Value{bo.X, bo.Y} {
+					ex, isEx := opnd.(*ssa.Extract)
+					if !isEx || ex.Index != 0 {
+						continue
+					}
+					d, isCall := ex.Tuple.(*ssa.Call)
+					if !isCall || calleeNameCommon(&d.Call) != pk+".(*cache).derefNodePtr" {
+						continue
+					}
+					n++
+					// the dereference must not lie before the recursive call
+					if Reach(fn, d, nil, isInstr(r), nil) != nil && Reach(fn, r, nil, isInstr(d), nil) == nil {
+						ok = false
+						site = c.P.InstrPos(iff)
+					}
+				}
+			}
+		}
+		c.Check(ok && n >= 3 && len(rec) > 0 && len(derefs) >= 4, "C02.mutate", fname(fn)+":the collapse decision uses children dereferenced after the recursive removal", site, itoa(n)+" nil tests after the recursion, each on a dereference made after it", "after the recursive removal doRemove tests a child that was dereferenced BEFORE the recursion: when the removed key was that very child (the node's own leaf) the stale answer is non-nil, the node is not collapsed into its single remaining subtree and the tree keeps a single-child internal node — the same contents hash to a different root")
+	}
+	// (b) seed 11: whatever derefNodePtr hands out is pinned — every success with a non-nil pointer passes
+	// markInUse(ptr), also when the node was already cached (a cached ancestor held by a running operation is otherwise
+	// evicted by a child fetch, committed as a dead node, and its subtree silently drops out of the root).
+	if fn := c.needFn("C02.mutate", pk+".(*cache).derefNodePtr"); fn != nil {
+		c.Analysed[fname(fn)] = true
+		cut := NewCut()
+		for _, call := range callsIn(fn) {
+			if calleeName(call) == pk+".(*cache).markInUse" {
+				if a := allArgs(call); len(a) == 2 && vstr(a[1]) == "param:ptr" {
+					cut.AddInstr(call)
+				}
+			}
+		}
+		cut.AddEdges(HeldEdges(fn, `^param:ptr == nil$`)...)
+		var hit ssa.Instruction
+		for _, r := range SuccessReturns(fn) {
+			if h := Reach(fn, nil, nil, isInstr(r), cut); h != nil {
+				hit = h
+			}
+		}
+		site := c.P.Pos(fn.Pos())
+		if hit != nil {
+			site = c.P.InstrPos(hit)
+		}
+		c.Check(len(cut.Instrs) > 0 && hit == nil, "C02.mutate", fname(fn)+":every node handed out is pinned (markInUse)", site, "every success return for a non-nil pointer passes markInUse(ptr)", "derefNodePtr can return a node without marking it in use: with a cache smaller than the path an ancestor held by a running Insert/Remove is evicted by a child fetch, the operation marks a pointer with a nil node dirty, commit hashes it as a dead node and the subtree drops out of the root — the root then depends on the cache capacity")
+	}
+	// (c) seed 12: pathbadger resolves a node of a root that is still pending (sequence number != 0) in that root's
+	// pending keyspace first; the finalized keyspace is consulted for it only after the pending lookup. (The first
+	// root committed for a version writes its nodes straight into the finalized keyspace under (version, index), the
+	// same indices a second fork uses for its own, different nodes; fetched nodes are not hash-checked.)
+	if fn := c.needFn("C02.dbptr", "storage/mkvs/db/pathbadger.(*badgerNodeDB).GetNode"); fn != nil {
+		c.Analysed[fname(fn)] = true
+		var fin, pend []ssa.Instruction
+		for _, call := range callsIn(fn) {
+			if !strings.HasSuffix(calleeName(call), "badger/v4.(*Txn).Get") {
+				continue
+			}
+			a := allArgs(call)
+			s := vstr(a[len(a)-1])
+			switch {
+			case strings.Contains(s, "pendingNodeKeyFmt"):
+				pend = append(pend, call)
+			case strings.Contains(s, "finalizedNodeKeyFmt") && !strings.Contains(s, "rootNode"):
+				fin = append(fin, call)
+			}
+		}
+		cut := NewCut().AddInstr(pend...)
+		cut.AddEdges(HeldEdges(fn, `getPendingRootSeqNo\(.*\)#0 == 0$`)...)
+		// only lookups after the sequence number is known are of interest
+		var seq ssa.Instruction
+		for _, call := range callsIn(fn) {
+			if strings.HasSuffix(calleeName(call), ".getPendingRootSeqNo") {
+				seq = call
+			}
+		}
+		var hit ssa.Instruction
+		if seq != nil {
+			for _, f := range fin {
+				if Reach(fn, seq, nil, isInstr(f), nil) == nil {
+					continue
+				}
+				if h := Reach(fn, seq, nil, isInstr(f), cut); h != nil {
+					hit = h
+				}
+			}
+		}
+		site := c.P.Pos(fn.Pos())
+		if hit != nil {
+			site = c.P.InstrPos(hit)
+		}
+		c.Check(seq != nil && len(pend) > 0 && len(fin) > 0 && hit == nil, "C02.dbptr", fname(fn)+":a pending root's nodes are looked up in its pending keyspace first", site, "every finalized-keyspace lookup after the sequence number is known is for sequence number 0 or follows the pending lookup", "GetNode reads the finalized keyspace for a root that is still pending before (or instead of) that root's own pending keyspace: a second fork's pointer (version, index) resolves to the first fork's node, which is accepted without a hash check — the tree opened at one fork's root has the other fork's contents")
+	}
+}
